@@ -74,7 +74,7 @@ class C09(Pipeline):
     thorough_cap = 9000
     tier_env = {"quick": {}, "thorough": {"VERIF_CH_LONG": "1"}}
     assumptions = [
-        "full application (app.New) driven through InitChain / FinalizeBlock / Commit with really signed transactions; every history runs on a fork of one prepared world per driver process (4 bonded validators, two active EVM chains, external accounts, keep-alives, relayer fees, treasury fees, bridged ERC-20, light node sale contract, a job, a user contract, a factory denom, a light node license; height 240); governance-only set-up goes through the modules' proposal handlers",
+        "full application (app.New) driven through InitChain / FinalizeBlock / Commit with really signed transactions; every history runs on a fork of one prepared world per driver process (4 bonded validators, two active EVM chains, external accounts, keep-alives, relayer fees, treasury fees, bridged ERC-20, light node sale contract, a job, a user contract, a factory denom, a light node license; height 280); governance-only set-up goes through the modules' proposal handlers",
         "a panic anywhere in FinalizeBlock / Commit is recovered by the harness (E2.DeliverBlock) and recorded with its stack; CometBFT would halt the node at that height",
         "hostile transactions are serialised by hand (the class 'empty' of math.Int / LegacyDec fields removes the field from the wire bytes, which the generated marshaller cannot produce) and signed with the key of the account that sends the well-formed message; kinds marked /all are sent by all 4 validators with the same mutation (values that matter once a quorum agrees); evidence proofs are parameters too (fields of the packed object)",
         "after the hostile block the pigeons keep doing their duty every block (sign, estimate, report relay errors, attest, batch estimates / confirmations, balance / reference block evidence) and users keep sending jobs, transfers and claims every 20 blocks; successful remote executions (transaction proofs) are not produced, relays are reported as failed and retried by the chain",
